@@ -166,6 +166,12 @@ def run():
     else:
         raise TranslateError(f"BlobReader: start+pos arithmetic not recognised (plain={plain}, checked={checked})")
 
+    bo = squash(fn_body(fr, "blob_reader_from_frame"))
+    need("file.seek(SeekFrom::Start(frame.payload_offset))?;", bo, "blob_reader: initial seek")
+    out.append("def BLOB_OPEN_VERIFIES : Bool := " + bool_lean(
+        "ifcopied!=frame.payload_length||*hasher.finalize().as_bytes()!=frame.checksum{" in bo
+        and "io::copy(&mut(&mutfile).take(frame.payload_length),&muthasher)?" in bo))
+
     # ---- WAL scan
     wl = read("src/io/wal.rs")
     wb = squash(fn_body(wl, "scan_records"))
